@@ -10,6 +10,9 @@
 (*             value really changed, the slots that differ from a system    *)
 (*             rebuilt from scratch, and whether the before/after totals    *)
 (*             bookkeeping is right.                                        *)
+(*   Refused : an edit the code refused while recomputing (capacity check): *)
+(*             the slots whose value changed all the same, the slots that   *)
+(*             differ from a rebuilt system.                                *)
 (* The trace specification consumes the events in order; for every event    *)
 (* every clause is evaluated and a line <<"FAIL", tid, seq, clause, ...>>   *)
 (* or <<"NOTE", ...>> is printed, so verdicts are total.                    *)
@@ -80,6 +83,14 @@ CheckUpdate(e) ==
     /\ LET missing == {it \in specItems \ SeqSet(chain) : it[1] \in Reachable(T)} IN
        IF ~e.composite /\ missing # {} THEN Note(e, "attr-chain-misses", missing) ELSE TRUE
 
+(* an edit the code refused (a capacity check failed while the update was being recomputed): EFSim's Update(failAt) leaves *)
+(* the state as it was (AllOrNothing), so no value may have changed and nothing may differ from a rebuilt system            *)
+CheckRefused(e) ==
+    LET T == Topo(e.T) IN
+    /\ IF e.tid \in DOMAIN cur /\ cur[e.tid] # T THEN Fail(e, "continuity", <<>>) ELSE TRUE
+    /\ IF Len(e.changed) # 0 THEN Fail(e, "refused-edit-changed-a-value", {Slot3(x) : x \in SeqSet(e.changed)}) ELSE TRUE
+    /\ IF Len(e.stale) # 0 THEN Fail(e, "stale-vs-rebuild-after-refused-edit", {Slot3(x) : x \in SeqSet(e.stale)}) ELSE TRUE
+
 Step ==
     /\ i < N
     /\ i' = i + 1
@@ -88,6 +99,7 @@ Step ==
          [] e.ev = "Update" -> /\ CheckUpdate(e)
                                /\ cur' = [t \in DOMAIN cur \cup {e.tid} |->
                                             IF t = e.tid THEN Topo(e.T2) ELSE cur[t]]
+         [] e.ev = "Refused" -> CheckRefused(e) /\ UNCHANGED cur
          [] OTHER -> UNCHANGED cur
 
 Init == i = 0 /\ cur = <<>>
